@@ -330,6 +330,9 @@ def make_machine(cell, ctx, holder):
               operand=st.one_of(st.sampled_from((["bad", "none"], ["bad", "str"], ["bad", "array"], ["bad", "list"], ["scalar", 0.0])),
                                 _vec_operand(d)))
         def invalid(self, opname, operand):
+            # array-like *factors* broadcast into an object holding arrays: unspecified, not exercised
+            if opname in ("*=", "/=") and operand[0] == "bad" and operand[1] in ("array", "list"):
+                operand = ["bad", "none"]
             self.sim.inplace(opname, operand)
 
         def teardown(self):
@@ -341,7 +344,7 @@ def make_machine(cell, ctx, holder):
 
 def cells(tier):
     out = []
-    shards = 2 if tier == "quick" else 8
+    shards = 3 if tier == "quick" else 8
     for machine in ("f64", "mp"):
         for d in (2, 3, 4):
             for fa in "gm":
@@ -358,18 +361,45 @@ def run_cell(cell, tier, ctx):
     steps = 30 if tier == "quick" else 60
     holder = {}
     Machine = make_machine(cell, ctx, holder)
+    from hypothesis import Phase
+
+    # generate only: the failing history is minimised below by bounded step removal (Hypothesis' stateful shrinker can
+    # take minutes per failure)
     sett = settings(max_examples=n, stateful_step_count=steps, database=None, deadline=None, derandomize=False,
                     report_multiple_bugs=False, suppress_health_check=list(HealthCheck), print_blob=False,
-                    verbosity=hypothesis.Verbosity.quiet)
+                    verbosity=hypothesis.Verbosity.quiet, phases=[Phase.generate])
     try:
         run_state_machine_as_test(hypothesis.seed(env.seed_for(PID, cell["id"]))(Machine), settings=sett)
     except Violation as v:
         v.case = {"history": list(holder["sim"].log)}
         v.cell = cell
-        return [v]
+        return [_minimise(cell, v, ctx)]
     except hypothesis.errors.Flaky as e:
         raise env.HarnessError(f"flaky state machine in {cell['id']}: {e!r}") from e
     return []
+
+
+def _minimise(cell, v, ctx, budget=400):
+    """greedy removal of steps (never the init step) while the same root-cause bucket still fails"""
+    best = v
+    hist = list(v.case["history"])
+    spent = 0
+    i = len(hist) - 2
+    while i >= 1 and spent < budget:
+        cand = hist[:i] + hist[i + 1:]
+        spent += 1
+        sub = runner.Ctx(PID, ctx.tier, cell)
+        try:
+            replay(cell, {"history": cand}, sub)
+        except Violation as w:
+            if w.bucket == best.bucket:
+                w.case = {"history": cand}
+                w.cell = cell
+                best, hist = w, cand
+        except Exception:  # noqa: BLE001
+            pass
+        i -= 1
+    return best
 
 
 def replay(cell, case, ctx):
